@@ -93,7 +93,9 @@ def mutate_lines(r, lines, k=None):
                         (1, 'leading_space'), (1, 'case'), (1, 'version'),
                         (1, 'comment_text'), (1, 'one_char'),
                         (2, 'swap_and_change'), (1.5, 'space_and_change'),
-                        (1.5, 'newline_to_sep'), (0.7, 'sep_to_sep')])
+                        (1.5, 'newline_to_sep'), (0.7, 'sep_to_sep'),
+                        (1.5, 'space_digits_and_change'),
+                        (1.2, 'blank_tail')])
         idxs = [i for i, l in enumerate(lines) if l]
         if m in ('digits_same_width', 'digits_other_width'):
             import re
@@ -162,6 +164,33 @@ def mutate_lines(r, lines, k=None):
                     lines[i] = lines[i].replace(
                         c, r.pick([x for x in SEPLIKE if x != c]), 1)
                     break
+        elif m == 'space_digits_and_change':
+            # three lines differ: one only in surrounding blanks, one only
+            # in a number, one for real (strip + ignore-pattern + a genuine
+            # difference in one comparison)
+            import re
+            dl = [i for i in idxs if re.search(r'\d', lines[i])]
+            if len(idxs) < 3 or not dl:
+                continue
+            k = r.pick(dl)
+            rest = [i for i in idxs if i != k]
+            i, j = r.sample(rest, 2)
+            mm = re.search(r'\d+', lines[k])
+            old = mm.group(0)
+            new = ''.join(r.pick('0123456789') for _ in old)
+            if new == old:
+                new = old[:-1] + ('1' if old[-1] != '1' else '2')
+            lines[k] = lines[k][:mm.start()] + new + lines[k][mm.end():]
+            lines[i] = r.pick(['', ' ', '\t']) + lines[i] + r.pick(
+                [' ', '  ', '\t'])
+            lines[j] = lines[j] + ' ' + r.pick(WORDS)
+        elif m == 'blank_tail':
+            # one more line at the end (or one fewer), made of blanks only
+            if lines and lines[-1].strip() == '' and lines[-1] != '' \
+                    and r.chance(0.5):
+                del lines[-1]
+            else:
+                lines.append(r.pick([' ', '  ', '\t', ' \t']))
         elif m == 'trailing_space':
             if not idxs:
                 continue
